@@ -309,6 +309,7 @@ class StepBudgetExceeded(Exception):
 
 STEP_BUDGET = 400000          # max. observed on the pinned tree: see report
 _CODEC_DIR = os.sep + os.path.join("fibertree", "codec") + os.sep
+_LOOPING = ("coordToHandle", "nextInSlice", "countLeft")   # the methods of the U/C/B formats that loop
 MAX_STEPS_SEEN = [0]
 
 
@@ -324,7 +325,8 @@ def step_budget(n):
         return local
 
     def glob(frame, event, arg):
-        return local if _CODEC_DIR in frame.f_code.co_filename else None
+        code = frame.f_code
+        return local if code.co_name in _LOOPING and _CODEC_DIR in code.co_filename else None
 
     old = sys.gettrace()
     sys.settrace(glob)
